@@ -450,8 +450,16 @@ func (gsr *GoStructRegistryType) GetOrCreateSliceType(rt *RegisteredType) *Regis
 		Q("type named '%v' already registered, re-using the type", sliceName)
 	} else {
 		Q("registering new slice type '%v'", sliceName)
-		derivedType := reflect.SliceOf(rt.TypeCache)
+		// not every registered type has a Go type (hash has none): the
+		// slice type then exists by name only, reflect.SliceOf(nil) panics.
+		var derivedType reflect.Type
+		if rt.TypeCache != nil {
+			derivedType = reflect.SliceOf(rt.TypeCache)
+		}
 		sliceRt = NewRegisteredType(func(env *Zlisp, h *SexpHash) (interface{}, error) {
+			if derivedType == nil {
+				return nil, nil
+			}
 			return reflect.MakeSlice(derivedType, 0, 0), nil
 		})
 		sliceRt.DisplayAs = fmt.Sprintf("(%s)", sliceName)
